@@ -431,8 +431,19 @@ fn gen_nonempty_bstr_field(g: &mut Gen, f: &mut Faults, name: &'static str) -> I
 /// Value of label 7 holding a chain of `c` nested counter-signatures, each level carried in the
 /// protected or the unprotected header of the one above, sometimes in the array form.
 fn gen_cs_chain(g: &mut Gen, c: usize) -> Item {
-    let inner = if c > 1 { Item::Map(vec![(Item::Int(7), gen_cs_chain(g, c - 1))]) } else { Item::Map(vec![]) };
-    let (prot, unprot) = if c > 1 && g.bool() { (Wrapped::new(inner), Item::Map(vec![])) } else { (Item::Bytes(vec![]), inner) };
+    // the whole chain through unprotected headers, through protected ones, or mixed
+    let mode = g.below(3);
+    gen_cs_chain_mode(g, c, mode)
+}
+
+fn gen_cs_chain_mode(g: &mut Gen, c: usize, mode: usize) -> Item {
+    let inner = if c > 1 { Item::Map(vec![(Item::Int(7), gen_cs_chain_mode(g, c - 1, mode))]) } else { Item::Map(vec![]) };
+    let in_protected = match mode {
+        0 => false,
+        1 => true,
+        _ => g.bool(),
+    };
+    let (prot, unprot) = if c > 1 && in_protected { (Wrapped::new(inner), Item::Map(vec![])) } else { (Item::Bytes(vec![]), inner) };
     let sig = Item::Array(vec![prot, unprot, Item::Bytes(vec![c as u8])]);
     if g.ratio(1, 4) {
         Item::Array(vec![sig, Item::Array(vec![Item::Bytes(vec![]), Item::Map(vec![]), Item::Bytes(vec![0xcc])])])
@@ -464,10 +475,14 @@ fn gen_counter_sig_at(g: &mut Gen, f: &mut Faults, depth: usize) -> Item {
             3 => {
                 // single signature of wrong arity
                 let mut s = gen_msg_valid_array(g, Kind::Signature, depth);
-                if g.bool() {
-                    s.pop();
-                } else {
-                    s.push(Item::Bytes(vec![9]));
+                match g.below(4) {
+                    0 => {
+                        s.pop();
+                    }
+                    1 => s.push(Item::Bytes(vec![9])),
+                    // an extra item in front of / inside an otherwise complete triple
+                    2 => s.insert(0, Item::Bytes(g.small_bytes())),
+                    _ => s.insert(1, Item::Bytes(g.small_bytes())),
                 }
                 Item::Array(s)
             }
@@ -630,6 +645,18 @@ pub fn gen_header(g: &mut Gen, f: &mut Faults, depth: usize) -> Item {
             Item::Int(i as i128)
         } else if g.ratio(1, 60) {
             gen_deep_value(g)
+        } else if matches!(&l, Item::Int(9 | 10 | 32 | 33 | 34 | 35)) && g.bool() {
+            // labels the registry assigns without the crate interpreting them (CounterSignature0, kid
+            // context, x5bag, x5chain, x5t, x5u): values of the shapes their definitions give, and near misses
+            match g.below(7) {
+                0 => Item::Bytes(g.small_bytes()),
+                1 => Item::Array(vec![Item::Bytes(g.small_bytes())]),
+                2 => Item::Array(vec![Item::Bytes(g.small_bytes()), Item::Bytes(g.small_bytes())]),
+                3 => Item::Array(vec![]),
+                4 => Item::Array(vec![Item::Int(-16), Item::Bytes(g.small_bytes())]),
+                5 => Item::Text("https://example.com/cert.pem".into()),
+                _ => Item::Array(vec![Item::Array(vec![Item::Bytes(g.small_bytes())])]),
+            }
         } else {
             gen_value(g, 2, true)
         };
@@ -1023,7 +1050,12 @@ pub fn gen_keyset(g: &mut Gen, f: &mut Faults) -> Item {
 
 fn gen_time(g: &mut Gen, f: &mut Faults) -> Item {
     if f.take(g, "time-bad") {
-        return if g.bool() { gen_out_of_range(g) } else { gen_wrong_kind(g, &["int", "float"]) };
+        return match g.below(3) {
+            0 => gen_out_of_range(g),
+            // an epoch-time or date-string tag around the number (NumericDate is untagged)
+            1 => Item::Tag(*g.pick(&[1u64, 0, 100, 1004]), Box::new(if g.bool() { Item::Int(1700000000) } else { Item::Float(1.5) })),
+            _ => gen_wrong_kind(g, &["int", "float"]),
+        };
     }
     if g.bool() {
         Item::Int(match g.below(4) {
@@ -1048,7 +1080,17 @@ pub fn gen_claims(g: &mut Gen, f: &mut Faults) -> Item {
     let mut entries: Vec<(Item, Item)> = vec![];
     for k in 1..=3 {
         if g.ratio(1, 3) {
-            let v = if f.take(g, "text-claim-bad") { gen_wrong_kind(g, &["tstr"]) } else { Item::Text(g.text()) };
+            let v = if f.take(g, "text-claim-bad") {
+                if g.bool() {
+                    // a tagged text (URI, base64url, MIME ... tags) where plain text belongs
+                    let t = if g.bool() { "coap://as.example.com".to_string() } else { g.text() };
+                    Item::Tag(*g.pick(&[32u64, 33, 34, 36, 0, 24, 55799]), Box::new(Item::Text(t)))
+                } else {
+                    gen_wrong_kind(g, &["tstr"])
+                }
+            } else {
+                Item::Text(g.text())
+            };
             entries.push((Item::Int(k), v));
         }
     }
@@ -1058,7 +1100,11 @@ pub fn gen_claims(g: &mut Gen, f: &mut Faults) -> Item {
         }
     }
     if g.ratio(1, 3) {
-        let v = if f.take(g, "cti-bad") { gen_wrong_kind(g, &["bstr"]) } else { Item::Bytes(g.small_bytes()) };
+        let v = if f.take(g, "cti-bad") {
+            if g.ratio(1, 3) { Item::Tag(*g.pick(&[24u64, 21, 22, 23, 37]), Box::new(Item::Bytes(g.small_bytes()))) } else { gen_wrong_kind(g, &["bstr"]) }
+        } else {
+            Item::Bytes(g.small_bytes())
+        };
         entries.push((Item::Int(7), v));
     }
     let many = g.ratio(1, 25);
